@@ -21,6 +21,14 @@ def c12Step (line : String) : String :=
     match c12Status s with
     | some st => ",".intercalate ((C12.h2ErrorHeaders st).map fun h => showBytes h.1 ++ ":" ++ showBytes h.2)
     | none => "bad-op"
+  | ["err", cw, st, code, h] =>
+    match code.toNat?, hexOr h with
+    | some c, some m =>
+      if (cw == "0" || cw == "1") && (st == "0" || st == "1") then
+        let r := C12.h1ErrorReply (cw == "1") (st == "1") c m
+        (match r.1 with | some b => showBytes b | none => "nopage") ++ (if r.2 then " close" else " open")
+      else "bad-op"
+    | _, _ => "bad-op"
   | ["esc", h] =>
     match hexOr h with
     | some m => showBytes (C12.htmlEscape m)
